@@ -324,7 +324,12 @@ class Tally:
 
 # ------------------------------------------------------------------------------------------------ pure states
 
-def make_pure_case(rng, dA, dB, r, irrational=False, real=False):
+def shift_unitary(d):
+    """cyclic shift |i> -> |i+1 mod d> as an exact matrix"""
+    return [[CQ(1) if i == (j + 1) % d else ZERO for j in range(d)] for i in range(d)]
+
+
+def make_pure_case(rng, dA, dB, r, irrational=False, real=False, basis_supported=False):
     m = min(dA, dB)
     if irrational:
         vals = list(PVEC[r][int(rng.integers(len(PVEC[r])))])
@@ -337,6 +342,9 @@ def make_pure_case(rng, dA, dB, r, irrational=False, real=False):
         s[pos] = v
     U = exact_cayley(rng, dA, cplx=not real)      # real: real orthogonal rotations, the state has real amplitudes (float64 presentations occur)
     V = exact_cayley(rng, dB, cplx=not real)
+    if basis_supported:
+        # psi = sum_i s_i |i+1 mod dA, i>: supported on computational basis states, amplitude exactly 0 on |00>
+        U, V = shift_unitary(dA), xm_eye(dB)
     return {"kind": "pure", "dA": dA, "dB": dB, "s": s, "irrational": irrational, "U": xm_json(U), "V": xm_json(V)}
 
 
@@ -927,7 +935,13 @@ def check_sk(ctx, case):
     P = np.outer(psi, psi.conj())
     skk = tr["sk2"][min(k, len(tr["sk2"])) - 1]
     truth = None
-    if variant == "rank1":
+    if variant == "tensorid":
+        m = int(case["m"])
+        X = case["b"] * np.kron(P, np.eye(m)) / m          # A (x) B1 (x) B2 read as the bipartite cut A | B1 B2
+        truth = case["b"] * float(tr["sk2"][0]) / m if k == 1 else None
+        dB = dB * m
+        N = dA * dB
+    elif variant == "rank1":
         X = case["b"] * P
         truth = case["b"] * skk
     elif variant == "shifted":
@@ -1089,6 +1103,15 @@ def _round(rng, thorough):
     # float64 and int64 occur next to complex128
     for dA, dB in [(2, 3), (3, 2), (3, 3)] + ([(2, 2), (4, 3)] if thorough else []):
         tasks.append(make_pure_case(rng, dA, dB, int(rng.integers(1, min(dA, dB) + 1)), real=True))
+    # states supported on computational basis vectors with zero amplitude on |00> (every Schmidt rank)
+    for dA, dB in [(2, 2), (2, 3), (3, 3)] + ([(3, 2), (4, 3)] if thorough else []):
+        for r in range(1, min(dA, dB) + 1):
+            tasks.append(make_pure_case(rng, dA, dB, r, basis_supported=True))
+    # S(k) norm of |phi><phi| (x) 1_m / m on dA x (dB1 m): closed form max s_i^2 / m for k = 1 (unequal dims, degenerate top eigenvalue)
+    for dA, dB1 in [(2, 2)] + ([(2, 3), (3, 2)] if thorough else []):
+        c = make_sk_case(rng, dA, dB1, 1, "tensorid")
+        c["m"] = 2
+        tasks.append(c)
     for dims in [(2, 3), (3, 2), (2, 3, 2)]:
         for opr in (False, True):
             n = len(dims)
